@@ -158,4 +158,38 @@ theorem member_method_clash :
     has .dx pMemberMethod (.decl (.strct 0) "m" "log2_0" (.sym ⟨.func, 0⟩)) = true := by
   decide +kernel
 
+/-- `fn zqf i threads_per_simdgroup { use W0 use W1 use L0 } ef c zqe zqp { use F0 } pl zqP F1 -` (Metal): a parameter
+spelled like the implicit lane-count parameter in a function that reads the lane count -/
+def pWave : Program :=
+  { nss := []
+    defs := [⟨none, .func 0 "zqf" [0] [.use (.wave false), .use (.wave true), .use (.loc 0)] none⟩,
+             entry 1 "zqe" 1 [.use (.func 0)]]
+    localNames := ["threads_per_simdgroup", "zqp"], pipeline := some ([1], none) }
+
+/-- the same program named with a reserved list that lacks the implicit parameter's name -/
+def toksWith (reserved : List String) (t : Target) (p : Program) : Option (List Tok) :=
+  (build reserved (namesInput t p)).toOption.map fun names => emit t names p
+
+/-- with the regenerated table the user parameter is renamed and the implicit parameters follow it, in the helper, in the
+entry point (which only passes them on) and in the wrapper -/
+theorem wave_params_emitted :
+    (toks .msl pWave).map (fun l => (l.map render)) =
+      some ["F:zqf", "(", "P:threads_per_simdgroup_0", "P:thread_index_in_simdgroup", "P:threads_per_simdgroup",
+            "?thread_index_in_simdgroup", "?threads_per_simdgroup", "?threads_per_simdgroup_0", ")",
+            "F:zqe", "(", "P:zqp", "P:thread_index_in_simdgroup", "P:threads_per_simdgroup",
+            "?zqf", "?thread_index_in_simdgroup", "?threads_per_simdgroup", ")",
+            "F:ComputeShaderEntry", "(", "P:zqp", "P:thread_index_in_simdgroup", "P:threads_per_simdgroup",
+            "?zqe", "?zqp", "?thread_index_in_simdgroup", "?threads_per_simdgroup", ")"] ∧
+    (toks .dx pWave).map (fun l => (l.map render)) =
+      some ["F:zqf", "(", "P:threads_per_simdgroup", "?threads_per_simdgroup", ")", "F:zqe", "(", "P:zqp", "?zqf", ")"] := by
+  decide +kernel
+
+/-- **the reservation is what keeps them apart**: with `threads_per_simdgroup` taken out of the reserved list (seeded
+mutant C15-6) the same function scope declares the user parameter and the implicit parameter under one name -/
+theorem wave_clash_without_reservation :
+    let l := toksWith (Gen.Reserved.msl.erase "threads_per_simdgroup") .msl pWave
+    (l.map fun l => l.contains (.decl (.func 0) "P" "threads_per_simdgroup" (.sym ⟨.localVar, 0⟩))) = some true ∧
+    (l.map fun l => l.contains (.decl (.func 0) "P" "threads_per_simdgroup" (.gen "threads_per_simdgroup"))) = some true := by
+  decide +kernel
+
 end RsslVerif.Lemmas.NamesEmitWitness
